@@ -409,6 +409,64 @@ pub fn worker(w: &mut Worker) {
         }
     }
 
+    // (i) a command that writes a family of variables under its output name (json_parse in variable
+    // form, read_properties, the for loop's variable ...) run when variables of that family are already
+    // there with awkward values: sizes and indexes left by "an earlier result" are data of the script
+    {
+        let stale_values = ["18446744073709551615", "9223372036854775807", "99999999999999", "-1", "-9223372036854775808", "0", "2.5", "NaN", "", "x", "1e18", "4294967296"];
+        let stale_names = ["d.length", "d[0]", "d[1]", "d.items.length", "d.items[0]", "d.items", "d", "d.a", "d.a.length", "d.length.length"];
+        let writers = [
+            "d = json_parse [1,2]",
+            "d = json_parse {\"items\":[1,2]}",
+            "d = json_parse {\"a\":{\"length\":3}}",
+            "d = json_parse {\"length\":7}",
+            "d = json_parse []",
+            "d = json_parse \"text\"",
+            "e = json_encode d",
+            "e = json_encode --collection d",
+            "c = read_properties --prefix d \"length=5\\nitems.length=6\"",
+            "unset_all_vars --prefix d",
+            "n = get_all_var_names",
+        ];
+        for writer in writers {
+            for name in stale_names {
+                for value in stale_values {
+                    if !w.take() {
+                        continue;
+                    }
+                    let text = format!("{}\n{}\n{}\necho done", crate::render::line(Some(name), "set", &[value]), writer, writer);
+                    let cj = json!({"kind": "script", "script": text, "plain_commands": true});
+                    w.begin(|| cj.clone());
+                    let (env, _o, _e, _h) = quiet_env();
+                    let r = guarded(|| runner::run_script(&text, sdk_context(), Some(env)));
+                    w.add_transitions(1);
+                    match r {
+                        Err(p) => w.fail("panic:stale-variables", &format!("script {:?}: panic {}", text, p), cj),
+                        Ok(res) => w.pass(true, hash64(&("stale-variables", res.is_ok()))),
+                    }
+                }
+            }
+        }
+        // the same through a first result whose keys spell such names
+        for first in ["{\"items.length\": 18446744073709551615}", "{\"length\": 18446744073709551615}", "{\"items\":{\"length\": 99999999999999}}", "[18446744073709551615]"] {
+            for second in ["{\"items\":[1,2]}", "[1,2]", "{\"items\":[]}", "7"] {
+                if !w.take() {
+                    continue;
+                }
+                let text = format!("d = json_parse {}\nd = json_parse {}\ne = json_encode d\necho done", first, second);
+                let cj = json!({"kind": "script", "script": text, "plain_commands": true});
+                w.begin(|| cj.clone());
+                let (env, _o, _e, _h) = quiet_env();
+                let r = guarded(|| runner::run_script(&text, sdk_context(), Some(env)));
+                w.add_transitions(1);
+                match r {
+                    Err(p) => w.fail("panic:stale-variables", &format!("script {:?}: panic {}", text, p), cj),
+                    Ok(res) => w.pass(true, hash64(&("stale-variables-2", res.is_ok()))),
+                }
+            }
+        }
+    }
+
     // (d) include cycles (a file that includes itself, and a cycle of two files)
     for variant in 0..2usize {
         if !w.take() {
@@ -554,7 +612,7 @@ pub fn crash_sig(case: &Value, kind: &str) -> String {
     }
 }
 
-pub const RULE: &str = "(a) every registered command of the standard library (discovered at run time; excluded: read, sleep, exec, spawn, exit, watchdog, everything under std::net, test_directory/test_file, cd, temp_file/temp_dir) x every argument tuple up to the arity bound from a 28-value pool {empty, NaN, a byte array that is not UTF-8 (a character cut off at its end), a map whose keys include 'a=b', the empty key and a key with a line break, a lone line break, multi-byte text at two byte alignments, a, 'a b', j (the name of a decoded JSON array variable set whose length entry is 99999999999), multi-byte, -1, 0, 1, 2.5, 20-digit number, i64::MAX, i64::MIN, live array/map/set/byte-array handle, an array containing its own handle, a map whose child array points back to it, an array holding a map that holds itself (a cycle not through the root), released handle, -r, text with a line break, a flag (each of the 18 option flags the library's commands know)}, each on a freshly prepared context in a scratch working directory that is reset before every case to the tree {file a, file 0, directory 1 with a file} (the quick tier adds every 'flag operand operand' triple); (b) 15 two-step histories (use after release, push/pop --copy of undefined and repeated names, removed or shadowed commands used by library scripts); (c) every script of up to n lines over 24 awkward lines (unmatched end/else/elseif/return, fn without name or end, for without array, goto to a missing label, goto loops, calls of undefined functions, ...) run with every command counted and the halt flag raised after 400 command entries; (f) a user function and an alias of it as the condition of if / elseif / while / not (and called plainly) for seven ways the function can end; (g) aliases that stand for themselves directly and through one another, and user functions invoked through eval; (d) a file that includes itself and a two-file include cycle; (e) for-in loops whose body clears, pops, removes from, releases, grows, replaces or unsets the array being iterated (sizes 0..3, three body shapes). Oracle: control returns with Ok or Err; a panic is caught and reported; an abort (stack overflow) or a hang (more than 4 s of CPU time, or 40 s of wall time, without returning) kills the worker process, is pinned to the case in flight by the supervisor and reported";
+pub const RULE: &str = "(a) every registered command of the standard library (discovered at run time; excluded: read, sleep, exec, spawn, exit, watchdog, everything under std::net, test_directory/test_file, cd, temp_file/temp_dir) x every argument tuple up to the arity bound from a 28-value pool {empty, NaN, a byte array that is not UTF-8 (a character cut off at its end), a map whose keys include 'a=b', the empty key and a key with a line break, a lone line break, multi-byte text at two byte alignments, a, 'a b', j (the name of a decoded JSON array variable set whose length entry is 99999999999), multi-byte, -1, 0, 1, 2.5, 20-digit number, i64::MAX, i64::MIN, live array/map/set/byte-array handle, an array containing its own handle, a map whose child array points back to it, an array holding a map that holds itself (a cycle not through the root), released handle, -r, text with a line break, a flag (each of the 18 option flags the library's commands know)}, each on a freshly prepared context in a scratch working directory that is reset before every case to the tree {file a, file 0, directory 1 with a file} (the quick tier adds every 'flag operand operand' triple); (b) 15 two-step histories (use after release, push/pop --copy of undefined and repeated names, removed or shadowed commands used by library scripts); (c) every script of up to n lines over 24 awkward lines (unmatched end/else/elseif/return, fn without name or end, for without array, goto to a missing label, goto loops, calls of undefined functions, ...) run with every command counted and the halt flag raised after 400 command entries; (f) a user function and an alias of it as the condition of if / elseif / while / not (and called plainly) for seven ways the function can end; (g) aliases that stand for themselves directly and through one another, and user functions invoked through eval; (d) a file that includes itself and a two-file include cycle; (e) for-in loops whose body clears, pops, removes from, releases, grows, replaces or unsets the array being iterated (sizes 0..3, three body shapes). Oracle: control returns with Ok or Err; a panic is caught and reported; an abort (stack overflow) or a hang (more than 4 s of CPU time, or 40 s of wall time, without returning) kills the worker process, is pinned to the case in flight by the supervisor and reported. (i) eleven commands that write or read a family of variables under a name (json_parse, json_encode, read_properties, unset_all_vars --prefix ...) run twice after one of ten members of that family was set to one of twelve awkward values (sizes near 2^64, negative, fractional, NaN, empty), and json_parse after a json_parse whose keys spell such names";
 pub const ASSUMPTIONS: &[&str] = &["values that would request huge allocations are not in the pool (allocation failure aborts by design of Rust)", "loop constructs are allowed to loop: they are ended through the halt flag, which is the embedder's documented way"];
 pub const EXHAUSTIVE: bool = true;
 pub const WALL_CAP_S: (u64, u64) = (58, 1700);
